@@ -4,6 +4,7 @@ package main
 // C23 (statistics), C24 (pruning): query schedules over real layouts with an auditing DataStore.
 
 import (
+	"strconv"
 	"context"
 	"errors"
 	"fmt"
@@ -58,6 +59,33 @@ type qScenario struct {
 	IterErr    int // -1 never
 	Engine     string
 	Concurrent bool // Close from another goroutine while Next runs
+	Deadline   bool // the Query context ends by deadline (DeadlineExceeded) instead of an explicit cancel
+}
+
+// manualCtx is a context whose end is triggered by the schedule and reports the chosen error.
+type manualCtx struct {
+	done chan struct{}
+	once sync.Once
+	mu   sync.Mutex
+	err  error
+}
+
+func newManualCtx() *manualCtx { return &manualCtx{done: make(chan struct{})} }
+func (m *manualCtx) end(err error) {
+	m.once.Do(func() {
+		m.mu.Lock()
+		m.err = err
+		m.mu.Unlock()
+		close(m.done)
+	})
+}
+func (m *manualCtx) Deadline() (time.Time, bool) { return time.Time{}, false }
+func (m *manualCtx) Done() <-chan struct{}       { return m.done }
+func (m *manualCtx) Value(any) any               { return nil }
+func (m *manualCtx) Err() error {
+	m.mu.Lock()
+	defer m.mu.Unlock()
+	return m.err
 }
 
 type qResult struct {
@@ -100,8 +128,16 @@ func runQueryScenario(h *History, q *bs.Query, sc qScenario) qResult {
 		eng.Start()
 		eng.Stop(context.Background())
 	}
-	ctx, cancel := context.WithCancel(context.Background())
+	mctx := newManualCtx()
+	cancel := func() {
+		if sc.Deadline {
+			mctx.end(context.DeadlineExceeded)
+		} else {
+			mctx.end(context.Canceled)
+		}
+	}
 	defer cancel()
+	var ctx context.Context = mctx
 	res, err := eng.Query(ctx, q)
 	if err != nil {
 		out.err1 = err
@@ -174,12 +210,14 @@ func genQScenario(r Rng, which string) qScenario {
 	switch r.Pick(10) {
 	case 0, 1:
 		sc.CancelAt = r.IntN(6)
+		sc.Deadline = r.Chance(0.5)
 	case 2, 3:
 		sc.CloseAt = r.IntN(6)
 		sc.Concurrent = r.Chance(0.4)
 	case 4:
 		sc.CancelAt = r.IntN(4)
 		sc.CloseAt = sc.CancelAt + r.IntN(2)
+		sc.Deadline = r.Chance(0.5)
 	case 5:
 		sc.StallAt = r.IntN(4)
 		sc.StallMs = 5 + r.IntN(20)
@@ -392,7 +430,24 @@ func checkStatsAndReads(c *ctx, h *History, layout []FileObs, q *bs.Query, sc qS
 	}
 	clean := !out.faultHit && !out.iterHit && out.err1 == nil
 	// verdicts: prefilter from the Lean model, filters from the files' own filters
-	prune := bs.VerifPruneQuery(q)
+	// the prune query (bloom expression AND the regex trees' field guard) comes from the Lean model, not from
+	// the implementation under test; the two are compared
+	var pt toks
+	pt.add("prune")
+	bloomQueryTok(&pt, q.Bloom)
+	regexQueryTok(&pt, q.Regex)
+	modelPrune := c.m.Ask(pt.String())
+	var it toks
+	bloomQueryTok(&it, bs.VerifPruneQuery(q))
+	if modelPrune != it.String() {
+		c.r.Add(Finding{Kind: "disagreement", Check: "prune-query", Detail: "the implementation's prune query (row bloom query AND regex field guard) differs from the Lean pruneBloom", Replay: map[string]any{"query": q, "impl": it.String(), "model": modelPrune}})
+	}
+	prune := &bs.BloomQuery{}
+	if f := strings.Fields(modelPrune); len(f) > 1 && f[0] == "S" {
+		pos := 1
+		e := parseBloomExprToks(f, &pos)
+		prune.Expression = &e
+	}
 	hasBloom := prune != nil && prune.Expression != nil
 	hasPre := q.Prefilter != nil && q.Prefilter.Expression != nil
 	t := (&toks{}).add("qplan").add(b2s(hasBloom)).n(len(layout))
@@ -711,4 +766,24 @@ func concurrencyRuns(c *ctx, r Rng, h *History, p *pools) {
 			c.r.Add(Finding{Kind: "violation", Check: "semaphore-not-restored", Detail: "query semaphore not fully released after all queries ended", Replay: map[string]any{"cap": capN}})
 		}
 	}
+}
+
+// parseBloomExprToks reads the "E <type> N|S <kind> <field> <token> <n> children…" encoding back.
+func parseBloomExprToks(f []string, pos *int) bs.BloomExpression {
+	var e bs.BloomExpression
+	*pos++ // "E"
+	e.ExpressionType = bs.BloomExpressionType(unhx(f[*pos]))
+	*pos++
+	if f[*pos] == "S" {
+		e.Condition = &bs.BloomCondition{Type: bs.BloomConditionType(unhx(f[*pos+1])), Field: unhx(f[*pos+2]), Token: unhx(f[*pos+3])}
+		*pos += 4
+	} else {
+		*pos++
+	}
+	n, _ := strconv.Atoi(f[*pos])
+	*pos++
+	for i := 0; i < n; i++ {
+		e.Children = append(e.Children, parseBloomExprToks(f, pos))
+	}
+	return e
 }
